@@ -30,6 +30,7 @@ import (
 	"github.com/miekg/dns"
 
 	"github.com/facebookincubator/dns/dnsrocks/db"
+	"github.com/facebookincubator/dns/dnsrocks/dnsdata"
 	"github.com/facebookincubator/dns/dnsrocks/dnsdata/cdb"
 	"github.com/facebookincubator/dns/dnsrocks/dnsdata/rdb"
 	"github.com/facebookincubator/dns/dnsrocks/dnsserver"
@@ -665,6 +666,53 @@ func semMain(args []string) {
 				wr.Put(map[string]interface{}{"ev": "q", "file": e.File, "qid": e.QID, "q": e.Q, "r": res, "tag": e.Tag, "rec": semRecord, "cache": semCacheOn})
 				nq++
 			}
+		case "rp":
+			// the range-point table of the REAL dnsdata.Rearranger for one set of subnets (no database involved)
+			var in struct {
+				Nets []struct {
+					Cidr string `json:"cidr"`
+					Loc  int    `json:"loc"`
+				} `json:"netsc"`
+			}
+			if err := json.Unmarshal(line, &in); err != nil {
+				hx.Die("bad rp line: %v", err)
+			}
+			ra := dnsdata.NewRearranger(len(in.Nets))
+			rerr := ""
+			for _, n := range in.Nets {
+				_, ipn, err := net.ParseCIDR(n.Cidr)
+				if err != nil {
+					hx.Die("bad cidr %q", n.Cidr)
+				}
+				// as the data-file parser hands subnets over: 16-byte address, mask in 128-bit space
+				ipn.IP = ipn.IP.To16()
+				if ones, bits := ipn.Mask.Size(); bits < 128 {
+					ipn.Mask = net.CIDRMask(ones+128-bits, 128)
+				}
+				if err := ra.AddLocation(ipn, []byte{byte(n.Loc >> 8), byte(n.Loc)}); err != nil {
+					rerr = err.Error()
+				}
+			}
+			pts := []map[string]interface{}{}
+			func() {
+				defer func() {
+					if p := recover(); p != nil {
+						rerr = fmt.Sprintf("panic: %v", p)
+					}
+				}()
+				for _, p := range ra.Rearrange() {
+					ip := p.To16()
+					loc := 0
+					if !p.LocIsNull() {
+						loc = int(p.LocID()[0])<<8 | int(p.LocID()[1])
+					}
+					pts = append(pts, map[string]interface{}{"b": semBytes(ip[:]), "ml": int(p.MaskLen()), "null": p.LocIsNull(), "loc": loc})
+				}
+			}()
+			var raw map[string]json.RawMessage
+			json.Unmarshal(line, &raw)
+			wr.Put(map[string]interface{}{"ev": "rp", "qid": e.QID, "tag": e.Tag, "nets": raw["nets"], "clients": raw["clients"], "points": pts, "err": rerr})
+			nq++
 		case "wire":
 			if world == nil {
 				hx.Die("wire before file")
